@@ -425,10 +425,24 @@ def d_score_chain(ctx):
                   "priority of the match that led here are lost, and the flow wins against more specific competitors" % recv, line=a.lineno)
     ext = [a for a in walk_no_nested(rtc) if isinstance(a, ast.Assign) and isinstance(a.targets[0], ast.Attribute) and a.targets[0].attr == "matching_scores"
            and any(isinstance(x, ast.Attribute) and x.attr == "matching_scores" for x in ast.walk(a.value))]
-    ok = bool(ext) and all(any(isinstance(c, ast.Call) and isinstance(c.func, ast.Attribute) and c.func.attr == "append" and src(c.func.value) == src(a.targets[0])
-                               for s_ in (_block_of(a) or []) for c in ast.walk(s_)) for a in ext)
+    def _appends(a):
+        return any(isinstance(c, ast.Call) and isinstance(c.func, ast.Attribute) and c.func.attr == "append" and src(c.func.value) == src(a.targets[0])
+                   for s_ in (_block_of(a) or []) for c in ast.walk(s_))
+
+    def _forwarded(a):
+        return any(isinstance(s_, ast.Assign) and src(s_.targets[0]).endswith(".position") and "catch_pattern_failure_label" in src(s_.value) for s_ in (_block_of(a) or []))
+    matched = [a for a in ext if not _forwarded(a)]
+    ok = bool(matched) and all(_appends(a) for a in matched)
     ctx.check("C05.d.score-chain", SM, "run_to_completion", "matching head extends the event's score chain", ok,
               "a head that matches takes the event's chain and appends its own score", line=(ext[0].lineno if ext else rtc.lineno))
+    # a head that the event FAILED and that continues at its failure label (the `else` of a `when`, an or-group) competes with the chain of that event too
+    fwd = [s_ for s_ in walk_no_nested(rtc) if isinstance(s_, ast.Assign) and src(s_.targets[0]).endswith(".position") and "catch_pattern_failure_label" in src(s_.value)]
+    for f_ in fwd:
+        ok = any(_forwarded(a) and a in (_block_of(f_) or []) for a in ext)
+        ctx.check("C05.d.score-chain", SM, "run_to_completion", "head forwarded to its failure label takes the event's score chain", ok,
+                  "the forwarded head continues with the scores of the event that failed it" if ok else
+                  "a head that continues at its failure label keeps its old score chain, which the per-event clean-up has emptied (= an exact match after padding): the `else` branch "
+                  "of a `when` beats a flow whose own match was more specific", line=f_.lineno)
 
 
 def _block_of(stmt):
